@@ -135,10 +135,6 @@ package pool
 //
 // Assumed contracts (unverified here; decoding is C01/C02):
 //
-//@ func (*Message) UnmarshalWithDecoder(decoder Decoder, data []byte) (n int, err error)
-//@   trusted
-//@   requires r != nil
-//@   modifies *r
 //
 //@ func (*Message) SetControlMessage(cm *net.ControlMessage)
 //@   trusted
@@ -185,3 +181,82 @@ package pool
 //@   trusted
 //@   requires r != nil
 //@   modifies *r
+//
+//@ func (*Message) Hijack()
+//@   trusted
+//@   requires r != nil
+//@   modifies r.hijacked
+//
+//@ func (*Message) IsSeparateMessage() (b bool)
+//@   trusted
+//@   requires r != nil
+//
+//@ func (*Message) Clone(msg *Message) (err error)
+//@   trusted
+//@   requires r != nil && msg != nil
+//@   modifies *msg
+//
+//@ func (*Message) UpsertType(typ message.Type)
+//@   trusted
+//@   requires r != nil
+//@   modifies r.msg.Type, r.isModified
+//
+//@ func (*Message) UpsertMessageID(mid int32)
+//@   trusted
+//@   requires r != nil
+//@   modifies r.msg.MessageID, r.isModified
+//
+// ---- C02: a pooled message owns the bytes it was decoded from -----------------------------------------
+//
+// UnmarshalWithDecoder copies the caller's bytes into the message's own buffer and decodes THAT copy, so
+// that token, option values and payload of the decoded message never alias the caller's (reused) receive
+// buffer; the retry loop that grows the option list terminates.
+//
+// Assumed contract of the Decoder interface (both coders are proved against the corresponding
+// clauses of their own contracts under C01/C02: what is decoded points into `data`; on
+// ErrOptionsTooSmall the list is full and too short for the options the encoding carries):
+//
+//@ spec optsNeeded(data []byte) int
+//@ spec within(a []byte, b []byte) bool = len(a) == 0 || a.obj == b.obj
+//
+//@ func (Decoder) Decode(buf []byte, m *message.Message) (n int, err error)
+//@   trusted
+//@   requires m != nil
+//@   modifies m.Options, m.Options[len(m.Options) : cap(m.Options)], m.Payload, m.Code, m.Token, m.Type, m.MessageID
+//@   ensures [too-small-full] errors.Is(err, message.ErrOptionsTooSmall) ==> len(m.Options) == cap(m.Options) && cap(m.Options) == cap(old(m.Options)) && cap(m.Options) < optsNeeded(buf)
+//@   ensures [n] err == nil ==> n == len(buf)
+//@   ensures [needed-bounded] 0 <= optsNeeded(buf) && optsNeeded(buf) <= len(buf)
+//@   ensures [same-array] m.Options[0:0] == old(m.Options)[0:0] && cap(m.Options) == cap(old(m.Options)) && len(m.Options) >= len(old(m.Options))
+//@   ensures [points-into-data] err == nil ==> within(m.Token, buf) && within(m.Payload, buf) && (forall i int :: {len(m.Options[i].Value)} len(old(m.Options)) <= i && i < len(m.Options) ==> within(m.Options[i].Value, buf))
+//
+//@ func (*Message) decode(decoder Decoder) (n int, err error)
+//@   requires r != nil && len(r.msg.Options) == 0 && len(r.bufferUnmarshal) < 1099511627776
+//@   modifies r.msg.Options, r.msg.Options[0 : cap(r.msg.Options)], r.msg.Payload, r.msg.Code, r.msg.Token, r.msg.Type, r.msg.MessageID
+//@   ensures [own-copy] err == nil ==> within(r.msg.Token, r.bufferUnmarshal) && within(r.msg.Payload, r.bufferUnmarshal) && (forall i int :: {len(r.msg.Options[i].Value)} 0 <= i && i < len(r.msg.Options) ==> within(r.msg.Options[i].Value, r.bufferUnmarshal))
+//@   ensures [buffer-kept] r.bufferUnmarshal == old(r.bufferUnmarshal)
+//@   ensures [consumed] err == nil ==> n == len(r.bufferUnmarshal)
+//@   loop 0:
+//@     modifies r.msg.Options, r.msg.Options[0 : cap(r.msg.Options)], r.msg.Payload, r.msg.Code, r.msg.Token, r.msg.Type, r.msg.MessageID
+//@     invariant [buffer-kept] r.bufferUnmarshal == old(r.bufferUnmarshal)
+//@     invariant [empty-list] len(r.msg.Options) == 0
+//@     invariant [own-list] (r.msg.Options[0:0] == old(r.msg.Options)[0:0] && cap(r.msg.Options) == cap(old(r.msg.Options))) || fresh(r.msg.Options)
+//@     decreases optsNeeded(r.bufferUnmarshal) - cap(r.msg.Options)
+//
+//@ func (*Message) UnmarshalWithDecoder(decoder Decoder, data []byte) (n int, err error)
+//@   requires r != nil && len(r.msg.Options) == 0 && distinctObjects(r.bufferUnmarshal, data) && len(data) < 1099511627776
+//@   modifies r.bufferUnmarshal, r.bufferUnmarshal[0 : cap(r.bufferUnmarshal)], r.body, r.msg.Options, r.msg.Options[0 : cap(r.msg.Options)], r.msg.Payload, r.msg.Code, r.msg.Token, r.msg.Type, r.msg.MessageID
+//@   ensures [caller-buffer-untouched] bytesEqOld(data, data)
+//@   ensures [owns-its-bytes] err == nil ==> within(r.msg.Token, r.bufferUnmarshal) && within(r.msg.Payload, r.bufferUnmarshal) && (forall i int :: {len(r.msg.Options[i].Value)} 0 <= i && i < len(r.msg.Options) ==> within(r.msg.Options[i].Value, r.bufferUnmarshal))
+//@   ensures [not-the-callers] len(data) > 0 ==> r.bufferUnmarshal.obj != data.obj
+//@   ensures [copy-is-exact] len(r.bufferUnmarshal) == len(data) && bytesEq(r.bufferUnmarshal, data)
+//@   ensures [consumed] err == nil ==> n == len(data)
+//
+// Assumed contracts of the pool (a message handed out is held by nobody else - the ownership discipline
+// of C12 - so for the receiver it is as good as newly allocated; it is empty):
+//
+//@ func (*Pool) AcquireMessage(ctx context.Context) (m *Message)
+//@   trusted
+//@   ensures m != nil && fresh(m) && len(m.msg.Options) == 0 && (cap(m.bufferUnmarshal) == 0 || fresh(m.bufferUnmarshal)) && (cap(m.msg.Options) == 0 || fresh(m.msg.Options))
+//
+//@ func (*Pool) ReleaseMessage(req *Message)
+//@   trusted
